@@ -2,7 +2,7 @@
 // harness fixes, so that `Sonic.Model.Xfer.readOp` / `writeOp` (the functions the C02 theorems are about) can be run on the
 // very same schedule by `sonicdrv xfer` and compared with what the completion callback was given.
 //
-//	! new <streamlen> adapter|fifo      the peer's stream: byte i = (7i+1) mod 251
+//	! new <streamlen> adapter|fifo|tcp      the peer's stream: byte i = (7i+1) mod 251
 //	! read <len> <all> <sched>          sched = comma separated m<k> (the call moves up to k bytes), b (would block), e (EOF), f (fails)
 //	< read <ok|eof|err> <n> <hex b[:n]> <1 if b[n:] is untouched>
 //	! write <len> <id> <all> <sched>    buffer byte j = (11j+17id+3) mod 251
@@ -22,6 +22,7 @@ import (
 	"errors"
 	"fmt"
 	"io"
+	"net"
 	"os"
 	"path/filepath"
 	"strconv"
@@ -30,6 +31,7 @@ import (
 	"time"
 
 	"github.com/talostrading/sonic"
+	"golang.org/x/sys/unix"
 )
 
 func init() {
@@ -103,13 +105,17 @@ func xferGen(r *rng, maxops int, w *bufio.Writer) {
 	if r.intn(3) == 0 {
 		kind = "fifo"
 	}
+	if kindSide := newRng(r.s ^ 0x7c9); kind == "adapter" && kindSide.intn(4) == 0 {
+		kind = "tcp" // reads only, through sonic.Dial (conn.go)
+	}
+	pipeLike := kind == "fifo" || kind == "tcp"
 	slen := r.pick(0, 1, 7, 64, 300, 2000)
 	fmt.Fprintf(w, "! new %d %s\n", slen, kind)
 	n := 1 + r.intn(maxops)
 	side := newRng(r.s ^ 0x5eed0d15)
 	for i := 0; i < n; i++ {
 		d := ""
-		if kind == "fifo" && side.intn(3) == 0 {
+		if pipeLike && side.intn(3) == 0 {
 			d = " d"
 		}
 		length := r.pick(1, 2, 3, 8, 17, 64, 255, 1000)
@@ -138,7 +144,7 @@ func xferGen(r *rng, maxops int, w *bufio.Writer) {
 			es = append(es, "f")
 			fmt.Fprintf(w, "! write %d %d %d %s%s\n", length, i, all, strings.Join(es, ","), d)
 		} else {
-			fmt.Fprintf(w, "! read %d %d %s%s\n", length, all, xferSched(r, length, all == 1, kind == "fifo", false), d)
+			fmt.Fprintf(w, "! read %d %d %s%s\n", length, all, xferSched(r, length, all == 1, pipeLike, false), d)
 		}
 	}
 }
@@ -465,20 +471,62 @@ func xferRun(script []string, w *bufio.Writer) {
 					tmp, _ = os.MkdirTemp("", "xfer")
 				}
 				fifoN++
-				path := filepath.Join(tmp, fmt.Sprintf("f%d", fifoN))
-				if err := syscall.Mkfifo(path, 0o600); err != nil {
-					fmt.Fprintf(w, "#env mkfifo: %v\n", err)
-					return
+				// the reading object (file.go's read reactor: a File on a FIFO, or a Conn from sonic.Dial — conn.go embeds the same
+				// reactor) and the two things the harness does to its peer end
+				var f interface {
+					AsyncRead([]byte, sonic.AsyncCallback)
+					AsyncReadAll([]byte, sonic.AsyncCallback)
+					Close() error
+					RawFd() int
 				}
-				f, err := sonic.Open(ioc, path, os.O_RDONLY|syscall.O_NONBLOCK, 0)
-				if err != nil {
-					fmt.Fprintf(w, "#env open: %v\n", err)
-					return
-				}
-				pfd, err := syscall.Open(path, os.O_WRONLY|syscall.O_NONBLOCK, 0)
-				if err != nil {
-					fmt.Fprintf(w, "#env open-peer: %v\n", err)
-					return
+				var feedPeer func([]byte)
+				var closePeer func()
+				pfd := -1
+				if kind == "tcp" {
+					ln, err := net.Listen("tcp", "127.0.0.1:0")
+					if err != nil {
+						fmt.Fprintf(w, "#env listen: %v\n", err)
+						return
+					}
+					conn, err := sonic.Dial(ioc, "tcp", ln.Addr().String())
+					if err != nil {
+						ln.Close()
+						fmt.Fprintf(w, "#env dial: %v\n", err)
+						return
+					}
+					peer, err := ln.Accept()
+					ln.Close()
+					if err != nil {
+						conn.Close()
+						fmt.Fprintf(w, "#env accept: %v\n", err)
+						return
+					}
+					defer peer.Close()
+					f = conn
+					pfd = 0
+					// loopback delivery is done when write returns in practice; the wait makes the first (inline) attempt see the chunk
+					feedPeer = func(b []byte) { _, _ = peer.Write(b); waitReady(conn.RawFd(), unix.POLLIN, 500) }
+					closePeer = func() { _ = peer.(*net.TCPConn).CloseWrite(); waitReady(conn.RawFd(), unix.POLLIN, 500) }
+				} else {
+					path := filepath.Join(tmp, fmt.Sprintf("f%d", fifoN))
+					if err := syscall.Mkfifo(path, 0o600); err != nil {
+						fmt.Fprintf(w, "#env mkfifo: %v\n", err)
+						return
+					}
+					ff, err := sonic.Open(ioc, path, os.O_RDONLY|syscall.O_NONBLOCK, 0)
+					if err != nil {
+						fmt.Fprintf(w, "#env open: %v\n", err)
+						return
+					}
+					wfd, err := syscall.Open(path, os.O_WRONLY|syscall.O_NONBLOCK, 0)
+					if err != nil {
+						fmt.Fprintf(w, "#env open-peer: %v\n", err)
+						return
+					}
+					f = ff
+					pfd = wfd
+					feedPeer = func(b []byte) { _, _ = syscall.Write(wfd, b) }
+					closePeer = func() { _ = syscall.Close(wfd) }
 				}
 				soFar := 0
 				issued := false
@@ -519,7 +567,7 @@ func xferRun(script []string, w *bufio.Writer) {
 					case e == "b":
 						// an empty pipe: only observable by the call made when the operation is issued (afterwards the reactor waits)
 					case e == "e":
-						_ = syscall.Close(pfd)
+						closePeer()
 						pfd = -1
 						fed = true
 					case strings.HasPrefix(e, "m"):
@@ -531,7 +579,7 @@ func xferRun(script []string, w *bufio.Writer) {
 							k = len(stream)
 						}
 						if k > 0 {
-							_, _ = syscall.Write(pfd, stream[:k])
+							feedPeer(stream[:k])
 							stream = stream[k:]
 							soFar += k
 							fed = true
@@ -556,7 +604,7 @@ func xferRun(script []string, w *bufio.Writer) {
 					issue()
 				}
 				if pfd >= 0 {
-					_ = syscall.Close(pfd)
+					closePeer()
 				}
 				_ = f.Close()
 			}
